@@ -13,6 +13,8 @@ MCHome1 == [b \in 1..(2 * NQ) |-> 1]
 \* second buffer of every queue lives on GPU 2 (Distribute / Remap), kernels run on GPU 1
 MCHome2 == [b \in 1..(2 * NQ) |-> IF b % 2 = 0 THEN 2 ELSE 1]
 MCGpuOf1 == [q \in Queues |-> 1]
+MCCtx1 == [q \in Queues |-> 1]        \* one process
+MCCtxQ == [q \in Queues |-> q]        \* one process per queue
 
 \* the i-th operation of a program of queue q may be one of
 Alphabet(q, i) ==
